@@ -28,15 +28,16 @@ VARIABLES shape, fault,
           nflush,    \* underlying flushes so far
           nwsend,    \* Sends that reached writing so far
           failed,    \* an underlying call has failed
+          dirty,     \* body bytes were written since the last successful flush
           hist       \* the calls and what they returned
-vars == <<shape, fault, didUpgrade, log, nflush, nwsend, failed, hist>>
+vars == <<shape, fault, didUpgrade, log, nflush, nwsend, failed, dirty, hist>>
 
 CanFailFlush(sh) == sh \in {"flusherr", "wrap1", "wrap2", "both"}     \* http.Flusher.Flush reports nothing
 
 Init ==
     /\ shape \in Shapes /\ fault \in Faults
     /\ (fault.kind = "flush" => CanFailFlush(shape))
-    /\ didUpgrade = FALSE /\ log = <<>> /\ nflush = 0 /\ nwsend = 0 /\ failed = FALSE /\ hist = <<>>
+    /\ didUpgrade = FALSE /\ log = <<>> /\ nflush = 0 /\ nwsend = 0 /\ failed = FALSE /\ dirty = FALSE /\ hist = <<>>
 
 FlushFails(k) == fault.kind = "flush" /\ fault.n = k
 WriteFails(k) == fault.kind = "write" /\ fault.n = k
@@ -53,30 +54,34 @@ Send(m) ==
     /\ LET u == DoUpgrade IN
        IF u.err THEN
           /\ didUpgrade' = FALSE /\ log' = u.log /\ nflush' = u.nflush /\ failed' = TRUE
-          /\ hist' = Append(hist, [op |-> "send", m |-> m, err |-> TRUE, where |-> "upgrade"]) /\ UNCHANGED nwsend
+          /\ hist' = Append(hist, [op |-> "send", m |-> m, err |-> TRUE, where |-> "upgrade"]) /\ UNCHANGED <<nwsend, dirty>>
        ELSE IF m = "empty" THEN      \* nothing to write: no Write at all
           /\ didUpgrade' = TRUE /\ log' = u.log /\ nflush' = u.nflush
-          /\ hist' = Append(hist, [op |-> "send", m |-> m, err |-> FALSE, where |-> ""]) /\ UNCHANGED <<nwsend, failed>>
+          /\ hist' = Append(hist, [op |-> "send", m |-> m, err |-> FALSE, where |-> ""]) /\ UNCHANGED <<nwsend, failed, dirty>>
        ELSE LET bad == WriteFails(nwsend + 1) IN
           /\ didUpgrade' = TRUE /\ nflush' = u.nflush /\ nwsend' = nwsend + 1
           /\ log' = Append(u.log, <<"W", m, IF bad THEN "cut" ELSE "full">>)
-          /\ failed' = (failed \/ bad)
+          /\ failed' = (failed \/ bad) /\ dirty' = TRUE
           /\ hist' = Append(hist, [op |-> "send", m |-> m, err |-> bad, where |-> IF bad THEN "write" ELSE ""])
     /\ UNCHANGED <<shape, fault>>
 
-\* Flush: right after the upgrade its flush is the flush; otherwise flush the writer
+\* Flush: right after the upgrade its flush is the flush; otherwise flush the writer.
+\* A Flush with nothing to push (no upgrade pending, no body byte since the last successful flush) is left
+\* unspecified: the property does not say whether it reaches the writer (the code forwards it today), so such
+\* calls are not generated.
 Flush ==
     /\ Len(hist) < MaxOps
+    /\ (didUpgrade => dirty)
     /\ LET u == DoUpgrade IN
        IF u.err THEN
-          /\ didUpgrade' = FALSE /\ log' = u.log /\ nflush' = u.nflush /\ failed' = TRUE
+          /\ didUpgrade' = FALSE /\ log' = u.log /\ nflush' = u.nflush /\ failed' = TRUE /\ UNCHANGED dirty
           /\ hist' = Append(hist, [op |-> "flush", m |-> "", err |-> TRUE, where |-> "upgrade"])
        ELSE IF u.did THEN
-          /\ didUpgrade' = TRUE /\ log' = u.log /\ nflush' = u.nflush /\ UNCHANGED failed
+          /\ didUpgrade' = TRUE /\ log' = u.log /\ nflush' = u.nflush /\ UNCHANGED <<failed, dirty>>
           /\ hist' = Append(hist, [op |-> "flush", m |-> "", err |-> FALSE, where |-> ""])
        ELSE LET bad == FlushFails(nflush + 1) IN
           /\ didUpgrade' = TRUE /\ log' = Append(log, <<"F", ~bad>>) /\ nflush' = nflush + 1
-          /\ failed' = (failed \/ bad)
+          /\ failed' = (failed \/ bad) /\ dirty' = (dirty /\ bad)
           /\ hist' = Append(hist, [op |-> "flush", m |-> "", err |-> bad, where |-> IF bad THEN "flush" ELSE ""])
     /\ UNCHANGED <<shape, fault, nwsend>>
 
